@@ -5,6 +5,7 @@ import SmsVerif.Driver.Auth
 import SmsVerif.Driver.Gsm7
 import SmsVerif.Driver.Split
 import SmsVerif.Driver.MsgId
+import SmsVerif.Driver.Tlv
 open SmsVerif SmsVerif.Driver
 
 def dispatch (line : String) : String :=
@@ -15,6 +16,7 @@ def dispatch (line : String) : String :=
   | "dec" :: toks => (handleDec toks).getD "bad-op"
   | "decalloc" :: toks => (handleDecAlloc toks).getD "bad-op"
   | ["pdus"] => handlePdus
+  | "tlv" :: toks => (handleTlv toks).getD "bad-op"
   | "msgid" :: toks => (handleMsgId toks).getD "bad-op"
   | "split" :: toks => (handleSplit toks).getD "bad-op"
   | "parselong" :: toks => (handleParseLong toks).getD "bad-op"
